@@ -174,6 +174,7 @@ func drawScenario(c *Case, o scenOpts) *scenario {
 		}
 
 		if o.postActions {
+			g.sideWrite = c.Weighted("builder-side-write", 4, 1) == 1
 			g.poison = c.Weighted("poison", 2, 2, 1)
 			g.otherKey = sc.keys[c.Pick("otherKey", len(sc.keys))]
 			g.cancel = c.Bool("cancel")
